@@ -9,7 +9,7 @@ mkdir -p /tmp/seed
 git -C /repo worktree remove --force $wt 2>/dev/null
 git -C /repo worktree add -q --detach $wt HEAD || exit 2
 for id in $ids; do
-  prop=$(python3 -c "import json;print(json.load(open('seeded/$id/meta.json'))['property'])")
+  prop=$(python3 -c "import json;m=json.load(open('seeded/$id/meta.json'));print(m.get('check_result',{}).get('check') or m['property'])")
   git -C $wt checkout -q -- . ; git -C $wt clean -qfd
   if ! git -C $wt apply seeded/$id/patch.diff 2>/dev/null; then
     if ! git -C $wt apply --3way seeded/$id/patch.diff 2>/dev/null; then
